@@ -272,14 +272,19 @@ def sharing_clauses(vc, result_params, operand_params, label="sharing"):
         ts, rs = tensor_leaves(vc, P)
         owned.update(t.oid for t in ts)
         owned.update(vc.call((r, "deref")).oid for r in rs)
-    new_learnable, foreign = 0, 0
+    new_learnable, foreign, reused = 0, 0, 0
     for P in result_params:
         ts, rs = tensor_leaves(vc, P)
         for t in ts:
             if not cls_is(vc, t, "ConstantParameter"):
                 new_learnable += 1
+            if t.oid in owned:
+                reused += 1
         for r in rs:
             if vc.call((r, "deref")).oid not in owned:
                 foreign += 1
     vc.ensure(label + ".no_new_tensor_parameter", new_learnable == 0)
     vc.ensure(label + ".references_point_to_operand_tensors", foreign == 0)
+    # an operand tensor (learnable, frozen or constant) re-used as a *node* of the derived graph would be compiled a second
+    # time into its own storage: it must appear behind a ReferenceParameter only
+    vc.ensure(label + ".operand_tensors_only_behind_references", reused == 0)
